@@ -530,6 +530,13 @@ impl Transaction {
         let start_of_outputs = start_of_inputs + inputs_len as usize * SLIP_SIZE;
         let start_of_message = start_of_outputs + outputs_len as usize * SLIP_SIZE;
         let start_of_path = start_of_message + message_len;
+        // the declared lengths have to fit the buffer before anything is sliced or allocated
+        let declared_len = (path_len as u64)
+            .checked_mul(HOP_SIZE as u64)
+            .and_then(|hops| hops.checked_add(start_of_path as u64));
+        if declared_len.map_or(true, |len| len > bytes.len() as u64) {
+            return Err(Error::from(ErrorKind::InvalidData));
+        }
         let mut inputs: Vec<Slip> = vec![];
         for n in 0..inputs_len {
             let start_of_data: usize = start_of_inputs + n as usize * SLIP_SIZE;
